@@ -774,15 +774,18 @@ def make_handler(rt):
                         ex.store_through(ptr, FltV(w, 'double'), st, node)
                     except Unsupported:
                         pass
+        outvals = {}
         for nm, ptr in outptrs.items():
             if isinstance(ptr, PtrV):
                 try:
-                    ex.store_through(ptr, ex.fresh_int(nm + '_out', 'int'),
-                                     st, node)
+                    fv = ex.fresh_int(nm + '_out', 'int')
+                    ex.store_through(ptr, fv, st, node)
+                    outvals[nm] = fv.t
                 except Unsupported:
                     pass
         st.calls.append(CallRec(rt.name, {'ints': p, 'scalars': {},
                                           'ptrs': ptrs, 'query': query,
+                                          'outs': outvals,
                                           'gil_released': st.ghost.get(
                                               'gil_released', False)},
                                 list(st.path()), node.get('line')))
